@@ -53,6 +53,11 @@ type Job struct {
 	HeaderFirst bool `json:"header_first,omitempty"`
 	// Canon: also return the canonical rendering of every object (trace mode; for replays)
 	Canon bool `json:"canon,omitempty"`
+	// Reader: how the bytes reach the decoder (all are legal io.Readers over the same bytes):
+	// 0 bytes.Reader; 1 the last bytes come together with io.EOF (iotest.DataErrReader; an HTTP body
+	// of known length does that); 2 one byte per Read; 3 short chunks of varying length;
+	// 4 like 3 and now and then (0, nil)
+	Reader int `json:"reader,omitempty"`
 	// Mode "session": for every cut c in Units one scanner on Data[:c] driven by the call script
 	// Calls (0 Scan, 1 Err, 2 Header, 3 Close); the responses are returned in Resp / RespTok
 	Calls []int `json:"calls,omitempty"`
@@ -198,8 +203,71 @@ func errText(err error) string {
 	return s
 }
 
+// oddReader serves the bytes of r in the way Job.Reader asks for
+type oddReader struct {
+	r    io.Reader
+	kind int
+	n    uint32 // call counter (drives the chunk lengths deterministically)
+	buf  []byte // kind 1: one chunk read ahead, so that the last one can be returned with io.EOF
+	err  error
+	init bool
+}
+
+func wrapReader(r io.Reader, kind int) io.Reader {
+	if kind == 0 {
+		return r
+	}
+	return &oddReader{r: r, kind: kind}
+}
+
+func (o *oddReader) Read(p []byte) (int, error) {
+	if len(p) == 0 {
+		return 0, nil
+	}
+	o.n++
+	switch o.kind {
+	case 1:
+		// read ahead by one chunk: when the underlying reader is exhausted the chunk in hand is the
+		// last one and goes out together with io.EOF
+		if !o.init {
+			o.init = true
+			o.buf = make([]byte, 0, 4096)
+			n, err := o.r.Read(o.buf[:4096])
+			o.buf, o.err = o.buf[:n], err
+		}
+		if len(o.buf) == 0 {
+			if o.err == nil {
+				o.err = io.EOF
+			}
+			return 0, o.err
+		}
+		n := copy(p, o.buf)
+		o.buf = o.buf[n:]
+		if len(o.buf) == 0 && o.err == nil {
+			nb := make([]byte, 4096)
+			m, err := o.r.Read(nb)
+			o.buf, o.err = nb[:m], err
+		}
+		if len(o.buf) == 0 && o.err != nil {
+			return n, o.err // the last bytes and the error in one call
+		}
+		return n, nil
+	case 2:
+		return o.r.Read(p[:1])
+	default:
+		if o.kind == 4 && o.n%5 == 3 {
+			return 0, nil
+		}
+		k := int(o.n*2654435761>>27)%37 + 1
+		if k > len(p) {
+			k = len(p)
+		}
+		return o.r.Read(p[:k])
+	}
+}
+
 func newScanner(data []byte, j *Job) *osmpbf.Scanner {
-	s := osmpbf.New(context.Background(), bytes.NewReader(data), j.Procs)
+	s := osmpbf.New(context.Background(), wrapReader(bytes.NewReader(data), j.Reader), j.Procs)
 	setFlags(s, j)
 	return s
 }
@@ -307,7 +375,7 @@ func runUnit(j *Job, u int) Obs {
 		s.Close()
 	case "stop":
 		ctx, cancel := context.WithCancel(context.Background())
-		s := osmpbf.New(ctx, bytes.NewReader(j.Data), j.Procs)
+		s := osmpbf.New(ctx, wrapReader(bytes.NewReader(j.Data), j.Reader), j.Procs)
 		setFlags(s, j)
 		n := 0
 		for n < u && s.Scan() {
@@ -338,7 +406,7 @@ func runUnit(j *Job, u int) Obs {
 				br.Seek(fsb, io.SeekStart)
 				rd = br
 			}
-			s2 := osmpbf.New(context.Background(), rd, j.Procs)
+			s2 := osmpbf.New(context.Background(), wrapReader(rd, j.Reader), j.Procs)
 			setFlags(s2, j)
 			if (u/2)%2 == 1 {
 				s2.Header()
